@@ -129,7 +129,9 @@ class Gen:
             what = rng.choices(['refused', 'sweep', 'merge'], [0.5, 0.4, 0.1])[0]
         elif prop == 'C09':
             what = rng.choices(['refused', 'merge'], [0.2, 0.8])[0]
-        kind = rng.choice(F.REFUSAL_KINDS) if what == 'refused' else None
+        kind = None
+        if what == 'refused':
+            kind = rng.choice(F.REFUSAL_KINDS + ['mixed_identification', 'differing_fieldsets'])
         gid = self.new_group()
         k = rng.randint(1, 3 if what == 'sweep' else 5)
         names = []
@@ -177,7 +179,9 @@ class Gen:
             mop.pop('pattern', None)
             mop.update(op='merge_refused', kind=kind)
             if extra:
-                mop.update(extra=extra, extra_pos=rng.randint(0, len(order)))
+                # order-sensitive refusal rules: the odd one out goes first or last most of the time
+                pos = rng.choice([0, len(order), len(order), rng.randint(0, len(order))])
+                mop.update(extra=extra, extra_pos=pos)
         elif what == 'sweep':
             mop.update(op='merge_sweep', crash_seed=rng.randint(0, 10 ** 9))
         else:
@@ -360,6 +364,19 @@ class Gen:
                 return next(self.script)
             except StopIteration:
                 self.script = None
+        # a refused save is usually retried right away, with another target and often another layout
+        if sim.ops_done and sim.ops_done[-1]['op'] == 'save_invalid' and rng.random() < 0.7:
+            sid = sim.ops_done[-1]['sess']
+            sess = sim.sessions.get(sid)
+            if sess is not None and sess.kind == 'mem' and sess.mem_rows:
+                gid = self._gid_of(sess)
+                g = self.groups[gid]
+                i = g.get('base_index', 0) + len(g['files'])
+                name = f'g{gid}_{i}.nc'
+                g['files'].append(name)
+                fs = list(sess.visible_fs)
+                assoc = [[f'g{gid}_{i}.a0.nc', [fs[-1]]]] if fs and rng.random() < 0.3 else []
+                return {'op': 'save', 'sess': sid, 'file': name, 'group': gid, 'assoc': assoc}
         w = self.cfg['weights']
         cands = []
         open_sessions = list(sim.sessions.values())
@@ -499,7 +516,7 @@ class Gen:
         sim = self.sim
         sess = rng.choice(list(sim.sessions.values()))
         specs = sim._specs(sess)
-        if not specs or sess.kind == 'mem':
+        if not specs or (sess.kind == 'mem' and rng.random() < 0.7):
             return None
         ids = [s['fid'] for s in specs if s.get('fid') is not None]
         if ids and rng.random() < 0.75:
@@ -580,7 +597,11 @@ class Gen:
         sess = rng.choice(ss)
         fs = list(sess.visible_fs)
         assoc = [[f'refused_{self.nsess}.a0.nc', [fs[-1]]]] if fs and rng.random() < 0.8 else []
-        return {'op': 'save_invalid', 'sess': sess.sid, 'assoc': assoc}
+        op = {'op': 'save_invalid', 'sess': sess.sid, 'assoc': assoc}
+        if rng.random() < 0.4:
+            op['kind'] = 'parent_is_file'
+            op['assoc'] = []
+        return op
 
     def g_dup_create(self):
         rng = self.rng
